@@ -81,7 +81,7 @@ SPEC = {
                 "effect}) issued by the handler of every sync step; every such event and the loss of every response is a fault point (all of "
                 "them up to a cap per program, a seeded sample above it); the program is re-run once per point with that single fault, the "
                 "client retries the identical pack, and the run must: let the retry succeed, keep every (actor, clientSeq) at most once in a "
-                "gap-free log, converge, and end in the same content as the fault-free twin. non-trivial = the fault fired while the pack "
+                "gap-free log, converge, and (immediate retry) end with the same counter value as the fault-free twin and, when neither run contains concurrent changes, in the same content. non-trivial = the fault fired while the pack "
                 "carried >=1 change; distinct = distinct (program, fault point)",
         "assumptions": ["in-memory database backend", "faults are injected at the Database interface (decorator), one per run",
                         "fault points inside the window of known finding F12 are excluded by construction and counted"],
